@@ -8,6 +8,9 @@ CHECKS = {
  "C01": ("E1", "exploration", "property-based testing (proptest, seeded): generated (type expression, value) cases, round-trip oracle",
          "Generated-input search: hundreds of thousands of (type expression, value) pairs over the whole built-in codec vocabulary (every constructor forced at the root, nesting to depth 3/4, boundary pools) are round-tripped through the real codecs; a violation is shrunk to a minimal replay file. Exploration, not proof: it shows absence of failures on what was generated.",
          "Trusts the harness bridge `Live` (dispatches every node to the real desert impl of the concrete type) and chrono/bigdecimal value constructors; TZ=UTC pinned.", "5.1"),
+ "C02": ("E2+E3", "translation_validation", "translation validation of the derive macro: generated declarations compiled with the real macro, differential against an independent interpretation of the declaration (reference encoder / decoder) and against the run-time interpreter",
+         "163 generated declarations (all versions of 36 evolution histories, 12 enum families, specials incl. recursion and the 254-step limit) are compiled with the real derive macro; for generated values the derived codec must round-trip, produce byte for byte what the documented field-by-field procedure produces (reference encoder interpreting the declaration), read reference encodings in other legal forms, and agree with the E3 interpreter. Programs are sampled (bounded shapes), values are generated: exploration of the program space, exact comparison per program.",
+         "The model interprets the declaration; the compiled code is the macro's output; they share only the declaration. Declarations are bounded (<= 6 initial fields, <= 6 steps compiled).", "5.2"),
  "C03": ("E3", "exploration", "property-based testing over generated evolution histories (legal by construction) x all writer/reader version pairs, logical-level oracle",
          "Histories of evolution steps are generated from selector specs and built so that every one is legal; each (history, writer version, reader version, value, placement) case is executed through the real AdtSerializer/AdtDeserializer and compared with the documented outcome computed on the logical level (defaults, wrap/unwrap, absent-if-optional, the two specific errors with field names), including that sibling data after the record is intact.",
          "Trusts the run-time interpreter that drives AdtSerializer/AdtDeserializer like the derive expansion (validated against the real expansion by C02's compiled declarations) and DESIGN section 9 for the excluded combination.", "5.3"),
@@ -26,12 +29,21 @@ CHECKS = {
  "C08": ("E1", "fault_enumeration", "exhaustive truncation of generated valid encodings (every cut point per value)",
          "For every generated value every strict prefix of its encoding is decoded and must be rejected; cut points are enumerated exhaustively per value and classified by the site they land in.",
          "Soundness of the oracle rests on C07 (exact consumption).", "5.8"),
+ "C09": ("E5", "exploration", "property-based testing over generated (dedup | plain) write sequences and dedup-bearing typed placements; byte-exact model of the string table; fault injection on back-references",
+         "Write sequences over a six-string alphabet (repeats frequent) in flat streams, containers, version-0 records and evolved records with removed names in their headers (nested, repeated) are encoded and decoded with the same definition; the stream must be byte-identical to the model's (ids from 1 in first-occurrence order, header names first, repeats exactly zigzag(-id)), and corrupted back-references must be InvalidStringId.",
+         "Cross-version deduplication is documented as unsupported and not exercised.", "5.9"),
  "C11": ("E4", "exploration", "exhaustive enumeration (thorough: all 2^32 u32 and i32 values) / boundary neighbourhoods + seeded random values against an independent formula",
          "Thorough tier enumerates the complete domain in the release profile; quick tier covers +-4096 around every width boundary, a lattice and random values of every bit length, in both profiles. Oracle: bytes, minimal length, continuation bits, size calculator and read-back through all three inputs.",
          "Reference formula in vmodel::refcodec (LEB128 / zig-zag), independent of desert.", "5.11"),
  "C12": ("E1", "exploration", "property-based testing: generated element lists x source container x target container x size form",
          "What one container wrote is read as every other container of the family, in the writer's known-length form, the writer's unknown-length form and the reference encoder's unknown-length form.",
          "Hash containers are compared as sets/maps; the written order is taken from the very instance that was serialized.", "5.12"),
+ "C13": ("E2+E3", "exploration", "property-based testing over generated enum families (compiled with the real macro and interpreted), cross-definition decode and constructor-index splicing",
+         "Families E < E' < E'' are generated so that appended variants come last in index order (declaration or sorted); values written by each member are read by each member; constructor indices are spliced; oracles are the index formula, variant/payload identity across extensions and the specific errors (never a panic).",
+         "12 compiled families + run-time families; enum-level #[evolution] is outside the stated domain.", "5.13"),
+ "C14": ("E2+E3", "exploration", "metamorphic property-based testing: twin values differing only in transient fields; histories built to end in FieldMadeTransient",
+         "For every compiled declaration with transient parts and for run-time histories ending in FieldMadeTransient(f) (f previously added / made optional / both / neither): twins encode identically, decoding restores declared defaults, encoding never fails, transient constructors give the dedicated error through every sink.",
+         "That transient fields contribute no bytes is additionally pinned byte for byte by C02's reference encoding.", "5.14"),
  "C15": ("E5", "exploration", "property-based testing: one instance to six sinks + size calculator; generated primitive-read op sequences on the three inputs (differential)",
          "Sinks: byte-identical streams or identical errors, exact size. Inputs: op-by-op agreement of SliceInput, OwnedInput and DeserializationContext on generated read sequences with adversarial counts.",
          "A user-defined BinaryOutput of the harness stands for 'any' custom output.", "5.15"),
@@ -70,9 +82,10 @@ def main():
         },
         "engines": [
             {"name": "E1", "path": "harness/vcheck/src/props/", "serves_properties": ["C01", "C04", "C05", "C06", "C07", "C08", "C12"], "kind_free_text": "proptest strategies over (type expression, value, fault), run by a seeded sharded driver with manual shrinking; oracles: round-trip, independent reference codec, remaining input, truncation, allocation/time budget"},
-            {"name": "E3", "path": "harness/vcat/src/dynrec.rs", "serves_properties": ["C03", "C05", "C06"], "kind_free_text": "run-time interpreter of generated declarations driving AdtSerializer/AdtDeserializer like the derive expansion"},
+            {"name": "E2", "path": "harness/vgen + harness/vcat/src/generated.rs + harness/vcheck/src/props/derived.rs", "serves_properties": ["C02", "C03", "C13", "C14", "C04", "C05", "C06", "C07", "C08"], "kind_free_text": "declarations generated by vgen from a seed, compiled with the real derive macro, each checked against the model interpreter"},
+            {"name": "E3", "path": "harness/vcat/src/dynrec.rs", "serves_properties": ["C02", "C03", "C05", "C06", "C09", "C13", "C14"], "kind_free_text": "run-time interpreter of generated declarations driving AdtSerializer/AdtDeserializer like the derive expansion"},
             {"name": "E4", "path": "harness/vcheck/src/props/varint.rs", "serves_properties": ["C11", "C05"], "kind_free_text": "exhaustive enumerators (all 32-bit values; all short byte strings)"},
-            {"name": "E5", "path": "harness/vcheck/src/props/sinks.rs", "serves_properties": ["C15", "C05"], "kind_free_text": "generated operation sequences on the BinaryInput implementations, differential"},
+            {"name": "E5", "path": "harness/vcheck/src/props/sinks.rs, dedup.rs", "serves_properties": ["C15", "C05", "C09"], "kind_free_text": "generated operation sequences on the BinaryInput implementations, differential"},
         ],
         "checks": checks,
         "not_applicable": na,
